@@ -259,6 +259,21 @@ func (hash *SexpHash) HashGetDefault(env *Zlisp, key Sexp, defaultval Sexp) (Sex
 
 var KeyNotSymbol = fmt.Errorf("key is not a symbol")
 
+// declaredStructDefn returns the (struct ...) declaration this record
+// is an instance of, or nil for plain hashes and undeclared record types.
+func (h *SexpHash) declaredStructDefn() *RecordDefn {
+	if h.TypeName == "hash" || h.TypeName == "field" {
+		return nil
+	}
+	if p := h.GoStructFactory; p != nil && p.UserStructDefn != nil && p.UserStructDefn.FieldType != nil {
+		return p.UserStructDefn
+	}
+	if rt := GoStructRegistry.Lookup(h.TypeName); rt != nil && rt.UserStructDefn != nil && rt.UserStructDefn.FieldType != nil {
+		return rt.UserStructDefn
+	}
+	return nil
+}
+
 func (h *SexpHash) TypeCheckField(key Sexp, val Sexp) error {
 	//Q("in TypeCheckField, key='%v' val='%v'", key.SexpString(nil), val.SexpString(nil))
 
@@ -370,6 +385,14 @@ func (hash *SexpHash) HashSet(key Sexp, val Sexp) error {
 	if err != nil {
 		if err != KeyNotSymbol {
 			return err
+		}
+		// the fields of a declared struct are named by symbols; a
+		// string (or other non-symbol) key used to skip the field
+		// check altogether, so (hset r "a" "bad") and {r["a"] = "bad"}
+		// added an undeclared, unchecked member to a typed record.
+		if defn := hash.declaredStructDefn(); defn != nil {
+			return fmt.Errorf("%s is a declared struct: its fields are named by symbols, cannot set key %s",
+				defn.Name, key.SexpString(nil))
 		}
 	}
 
